@@ -4,7 +4,7 @@ use super::Property;
 use crate::drive::{push_with, Backend, Ev};
 use crate::engine::{case_text, text_case, CaseInfo, CheckResult, Ctx, StreamSpec, Tier};
 use crate::gen::{self, TextPlan};
-use crate::oracle::fold::{fold, lib_resolver, m_of_marked, m_of_marked_owned, m_of_owned, m_of_yaml, M};
+use crate::oracle::fold::{c07_resolver, fold, m_of_marked, m_of_marked_owned, m_of_owned, m_of_yaml, M};
 use crate::{ensure, fail};
 use saphyr::{LoadableYamlNode, MarkedYaml, MarkedYamlOwned, Yaml, YamlOwned};
 use saphyr_parser::Parser;
@@ -33,10 +33,10 @@ pub fn check_input(info: &mut CaseInfo, input: &str) -> CheckResult {
     }
     let docs = loaded.unwrap();
     let evs: Vec<Ev> = o.evs();
-    let expect_last = fold(&evs, &lib_resolver, true).map_err(|m| crate::engine::Fail::new("fold", m))?;
+    let expect_last = fold(&evs, &c07_resolver, true).map_err(|m| crate::engine::Fail::new("fold", m))?;
     let got: Vec<M> = docs.iter().map(m_of_yaml).collect();
     if got != expect_last {
-        let expect_first = fold(&evs, &lib_resolver, false).unwrap();
+        let expect_first = fold(&evs, &c07_resolver, false).unwrap();
         if got != expect_first {
             ensure!(got.len() == expect_last.len(), "doc-count", "{} documents loaded, the event stream has {}", got.len(), expect_last.len());
             let i = (0..got.len()).find(|i| got[*i] != expect_last[*i]).unwrap();
